@@ -26,6 +26,7 @@ KNOWN_KEY = "kepler:hyperbolic_bisection_bracket_overflow"
 KNOWN_512 = "kepler:whfast512_fixed_iterations_outside_small_step_domain"
 KNOWN_BS = "kepler:history_stale_bs_nbody_ode"
 KNOWN_GJ = "kepler:history_stale_gravity_jacobi"
+KNOWN_KU = "kepler:keep_unsynchronized_shortened_last_step"
 KNOWN_HANG = "kepler:hyperbolic_newton_overflow_nontermination"
 
 
@@ -204,6 +205,16 @@ def judge_job(job):
     except orc.NoSolution as e:
         return {"nosolution": str(e)}
     except Exception as e:        # decimal signals etc.: treat as "oracle could not judge"
+        return {"nosolution": repr(e)}
+
+
+def judge_sync_job(job):
+    p, mu, T, out, K = job
+    try:
+        return orc.judge(p, mu, T, out, K=K, compound=True)
+    except orc.NoSolution as e:
+        return {"nosolution": str(e)}
+    except Exception as e:
         return {"nosolution": repr(e)}
 
 
@@ -579,6 +590,118 @@ def run(ctx):
                                "%s step%s is off the exact Kepler orbit (error/tolerance pos %.3g vel %.3g)"
                                % (tag, " on a simulation with a history" if meta.get("history") else "",
                                   res["ratio_pos"], res["ratio_vel"])))
+    # ---------------- 3c. deferred synchronisation: WHFast steps with safe_mode=0 leave the simulation unsynchronized;
+    # synchronized output is then obtained in every available way and judged by the Kepler oracle AT THE REPORTED sim.t
+    # (exact flow of the initial state); a bit-exact subset is also compared with the model chain Run.unsyncF
+    WAYS = ["synchronize", "integrate_noop", "integrate_small", "integrate_eft0", "save_load_synchronize",
+            "save_load_integrate_noop", "save_load_integrate_small", "copy_synchronize", "copy_integrate_noop",
+            "copy_integrate_small"]
+    nsync = ctx.scale(160, 2000)
+    sync_cases = []
+    sync_meta = []
+    for k in range(nsync):
+        while True:
+            meta, p, mu, dt = gen_case(rng, hyp=(rng.random() < 0.3), max_rev=0.05, min_rev=1e-4, emax_ell=0.9)
+            if meta["e"] < 1 or meta["e"] > 1.1:
+                break
+        exact = (k % 2 == 0)                       # bit-exact subset: test particle, star at rest at the origin, G = 1
+        coord = rng.choice(["democraticheliocentric", "jacobi"]) if exact else \
+            rng.choice(["jacobi", "whds", "democraticheliocentric", "barycentric"])
+        massive = (not exact) and coord in ("jacobi", "whds")
+        G = 1.0 if exact or rng.random() < 0.5 else 10 ** rng.uniform(-3, 3)
+        q = (10 ** rng.uniform(-9, 0)) if massive else 0.0
+        m0 = mu / G / (1 + q) if massive else mu / G
+        m1 = m0 * q
+        mu_eff = G * (m0 + m1) if massive else G * m0
+        if exact and not any(v == 0.0 for v in p):
+            p0 = [0.0] * 6; p1 = list(p)
+        else:
+            exact = False
+            f0 = -m1 / (m0 + m1); f1 = m0 / (m0 + m1)
+            p0 = [f0 * v for v in p]; p1 = [f1 * v for v in p]
+        rel = [b - a_ for a_, b in zip(p0, p1)]
+        n = rng.randint(1, 4)
+        way = rng.choice(WAYS)
+        ku = 0 if exact else rng.choice([0, 0, 1])
+        case = {"coordinates": coord, "G": G.hex(), "m0": m0.hex(), "m1": m1.hex(), "p0": hexl(p0), "p1": hexl(p1),
+                "dt": dt.hex(), "n": n, "way": way, "f": rng.uniform(0.05, 1.0), "keep_unsynchronized": ku,
+                "kernel": "default" if exact or coord != "jacobi" else rng.choice(["default", "default", "lazy", "composition"])}
+        sync_cases.append(case)
+        sync_meta.append((dict(meta, coordinates=coord, mass_ratio=q, G=G, n_unsynchronized_steps=n, way=way,
+                               keep_unsynchronized=ku, kernel=case["kernel"], bit_exact=exact), rel, mu_eff, dt, exact, m0))
+    sync_out, err = run_driver(libdir, "sync", sync_cases, timeout=600)
+    if sync_out is None:
+        ctx.violation("kepler:deferred_synchronisation_%s" % ("nontermination" if err == "timeout" else "crash"), {"error": err},
+                      False, "WHFast safe_mode=0 steps + synchronisation did not return (%s)" % err)
+        sync_out = []
+    sjobs2 = []
+    smeta2 = []
+    coq_terms = []
+    sync_errors = {}
+    for case, (meta, rel, mu_eff, dt, exact, m0), r in zip(sync_cases, sync_meta, sync_out):
+        if "error" in r:
+            sync_errors[r["error"][:80]] = sync_errors.get(r["error"][:80], 0) + 1
+            continue
+        s0 = [float.fromhex(v) for v in r["state"][0]]; s1 = [float.fromhex(v) for v in r["state"][1]]
+        out = [b - a_ for a_, b in zip(s0, s1)]
+        T = float.fromhex(r["t"])
+        sjobs2.append((rel, mu_eff, T, out, 64 * 8 * (meta["n_unsynchronized_steps"] + 2)))
+        smeta2.append((case, meta, s0 + s1, T))
+        if exact:
+            way = meta["way"]
+            nn = meta["n_unsynchronized_steps"] + (1 if way.endswith("integrate_eft0") else 0)
+            later = [float.fromhex(r["dt_last_done"])] if way.endswith("integrate_small") else []
+            coq_terms.append(("(unsyncF %s %s %s %d%%nat %s, %s)" % (vlib.flist(rel), vlib.fhex(m0), vlib.fhex(dt), nn,
+                                                                      vlib.flist(later), vlib.flist(s1)), meta))
+    if sync_errors:
+        ctx.extra["deferred_sync_errors"] = sync_errors
+    # bit-exact comparison with the model chain
+    sjobs_coq = []
+    for c0 in range(0, len(coq_terms), 60):
+        body = hdr + "Definition cases : list (list float * list float) := [\n" + ";\n".join(t for t, _ in coq_terms[c0:c0 + 60]) + \
+            "].\nEval vm_compute in (bad_cases cases).\n"
+        sjobs_coq.append(("c03_sync_%d" % (c0 // 60), body))
+    sync_bad = []
+    sync_ok = True
+    for (name, ok, outp), c0 in zip(vlib.coq_eval_many(sjobs_coq), range(0, len(coq_terms), 60)):
+        bad = vlib.parse_coq_list_nat(outp) if ok else None
+        if bad is None:
+            sync_ok = False
+            ctx.obligation("correspondence:C03:" + name, False, outp[-1500:])
+        else:
+            sync_bad += [c0 + b for b in bad]
+    ctx.obligation("correspondence:C03 deferred synchronisation: model chain (dt/2, dt^(n-1), whfast_sync_drift dt, later steps) == "
+                   "library after n safe_mode=0 steps + synchronized output, bit-for-bit on %d cases" % len(coq_terms),
+                   sync_ok and not sync_bad and len(coq_terms) > 0,
+                   "mismatching cases: %s" % [coq_terms[b][1] for b in sync_bad[:4]])
+    ctx.traces += len(coq_terms) if sync_ok else 0
+    with Pool(vlib.JOBS) as pool:
+        sres2 = pool.map(judge_sync_job, sjobs2, chunksize=4)
+    nsync_by_way = {}
+    for (case, meta, raw, T), (rel, mu_eff, _T, out, _K), res in zip(smeta2, sjobs2, sres2):
+        ctx.evaluations += 1
+        nsync_by_way[meta["way"]] = nsync_by_way.get(meta["way"], 0) + 1
+        ctx.case(key=("sync", meta["way"], meta["coordinates"], meta["n_unsynchronized_steps"], meta["keep_unsynchronized"]))
+        rep = {"how": "n WHFast steps with safe_mode=0, then synchronized output by `way` (tools/c03_driver.py mode sync); "
+                      "judged against the exact Kepler flow of the initial relative state over the reported sim.t",
+               "case": case, "meta": meta, "reported_t": T, "library_state": hexl(raw)}
+        if not finite(raw):
+            violations.append(("kepler:deferred_synchronisation_nonfinite", rep, "NaN/inf after deferred synchronisation"))
+            continue
+        if "nosolution" in res:
+            nos += 1
+            continue
+        record("deferred_sync", res)
+        if not res["ok"]:
+            rep["judge"] = res
+            known_ku = meta["keep_unsynchronized"] == 1 and meta["way"].endswith("integrate_small")
+            violations.append((KNOWN_KU if known_ku else "kepler:deferred_synchronisation_off_orbit:%s" % meta["way"], rep,
+                               "after %d unsynchronized WHFast steps, output via %s is off the exact Kepler orbit at the reported "
+                               "time (error/tolerance pos %.3g vel %.3g)" % (meta["n_unsynchronized_steps"], meta["way"],
+                                                                           res["ratio_pos"], res["ratio_vel"])))
+    ctx.extra["deferred_sync_cases_by_way"] = nsync_by_way
+    ctx.extra["deferred_sync_bit_exact_cases"] = len(coq_terms)
+
     ctx.extra["full_step_cases"] = per_integ
     if errors:
         ctx.extra["full_step_errors"] = errors
